@@ -171,7 +171,7 @@ func TagBlock(buf []byte, tag uint64) {
 
 // DecodeTag decodes a block written by TagBlock. ok=false means the block is
 // not one whole tagged block: torn (words of different tags), shifted or of
-// the wrong size; then (w0,w1,at) name the first disagreeing word.
+// the wrong size; then tag is what word 0 carries and word `at` carries tagAt.
 func DecodeTag(b []byte) (tag uint64, ok bool, at int, tagAt uint64) {
 	if len(b) != DiskBlockSize {
 		return 0, false, -1, 0
